@@ -13,10 +13,10 @@ Main statements
 * `reject_long_padding`, `reject_non_eos_padding`, `reject_eos_symbol`
 * `decodeMax_*`           the length-limited variant used by the HPACK decoder
 * table obligations re-exported from `Proofs.Lemmas.Huffman`
-* `AppendHuffmanEqEncodeStatement` (NOT proved here): the 64-bit accumulator model `appendHuffman`
-  of `AppendHuffmanString` computes `encode`. Both are run against the Go code on every check
-  (ops `enc` and `encspec`), so the equality is sampled, not proved; `appendHuffman_eq_encode_small`
-  proves it for the empty string and all one-byte strings by kernel evaluation.
+* `appendHuffman_eq_encode` : `AppendHuffmanEqEncodeStatement` — the 64-bit accumulator model
+  `appendHuffman` of `AppendHuffmanString` (shift/or modulo 2^64, 4-byte flush at `n ≥ 32`, EOS
+  padding, 0–4 trailing bytes) computes `encode` for every byte string (invariant `AccInv`);
+  `decode_appendHuffman` is the round trip on that byte-level model.
 -/
 namespace NetVerif.Proofs.C04
 open NetVerif.Model.Huffman
@@ -431,8 +431,8 @@ theorem reject_eos_symbol (s : List Nat) (hs : Bytes s) (rest : List Bool) :
 
 /-! ### The byte-level accumulator of `AppendHuffmanString` -/
 
-/-- Full statement (not proved; tied by the differential run): the accumulator model equals the
-bit-level specification for every byte string. -/
+/-- The accumulator model equals the bit-level specification for every byte string
+(proved below as `appendHuffman_eq_encode`). -/
 def AppendHuffmanEqEncodeStatement : Prop := ∀ s : List Nat, Bytes s → appendHuffman s = encode s
 
 open NetVerif.Proofs.Lemmas.HuffmanAcc in
@@ -500,10 +500,89 @@ theorem accInv_foldl (s : List Nat) (hs : Bytes s) : ∀ (a : Acc) (bits : List 
     have := ih hs' _ _ (accInv_step a bits c hc h)
     simpa [encodeBits, List.append_assoc] using this
 
-/-- The part proved: the empty string and every one-byte string (covers every table entry once,
-including the 1–4 trailing-byte cases of the final `switch`). -/
-theorem appendHuffman_eq_encode_small_partial :
-    appendHuffman [] = encode [] ∧ ∀ c < 256, appendHuffman [c] = encode [c] := by
-  decide +kernel
+theorem fin1 (x : Nat) : [x % 256] = beBytes 1 x := by
+  simp only [beBytes, List.cons.injEq, and_true, Nat.reduceMul, Nat.reducePow]; omega
+theorem fin2 (x : Nat) : [(x % 2 ^ 16) >>> 8 % 256, x % 2 ^ 16 % 256] = beBytes 2 x := by
+  simp only [beBytes, Nat.shiftRight_eq_div_pow, List.cons.injEq, and_true, Nat.reduceMul, Nat.reducePow]
+  refine ⟨?_, ?_⟩ <;> omega
+theorem fin3 (x : Nat) :
+    [((x >>> 8) % 2 ^ 16) >>> 8 % 256, (x >>> 8) % 2 ^ 16 % 256, x % 256] = beBytes 3 x := by
+  simp only [beBytes, Nat.shiftRight_eq_div_pow, List.cons.injEq, and_true, Nat.reduceMul, Nat.reducePow]
+  refine ⟨?_, ?_, ?_⟩ <;> omega
+theorem fin4 (x : Nat) :
+    [(x % 2 ^ 32) >>> 24 % 256, (x % 2 ^ 32) >>> 16 % 256, (x % 2 ^ 32) >>> 8 % 256, x % 2 ^ 32 % 256] =
+      beBytes 4 x := by
+  simp only [beBytes, Nat.shiftRight_eq_div_pow, List.cons.injEq, and_true, Nat.reduceMul, Nat.reducePow]
+  refine ⟨?_, ?_, ?_, ?_⟩ <;> omega
+
+theorem pad_byte : ∀ o < 8, 0 < o → 255 >>> o = 2 ^ (8 - o) - 1 := by decide
+
+open NetVerif.Proofs.Lemmas.HuffmanAcc in
+/-- The bytes still to be written: the `k` low bytes of `x'` are the packed pending bits. -/
+theorem acc_tail (a : Acc) (bits : List Bool) (h : AccInv a bits) (x' : Nat)
+    (hx' : x' = bitsToNat (bits ++ List.replicate (padLen a.n) true) % 2 ^ 64) :
+    a.out ++ beBytes ((a.n + padLen a.n) / 8) x' =
+      packBits (bits ++ List.replicate (padLen a.n) true) := by
+  obtain ⟨done, pend, hb, hd, hout, hn, hn32, hx⟩ := h
+  have hmod := padLen_mod a.n
+  have hlt := padLen_lt a.n
+  have hk : (pend ++ List.replicate (padLen a.n) true).length = 8 * ((a.n + padLen a.n) / 8) := by
+    simp only [List.length_append, List.length_replicate, ← hn]; omega
+  rw [hb, List.append_assoc, packBits_append _ _ hd, ← hout,
+    packBits_eq_beBytes _ _ hk]
+  congr 1
+  rw [hx', hb, List.append_assoc, beBytes_mod64 _ _ (by omega), bitsToNat_append, hk, beBytes_mod]
+
+open NetVerif.Proofs.Lemmas.HuffmanAcc in
+theorem accFinish_eq (a : Acc) (bits : List Bool) (h : AccInv a bits) :
+    accFinish a = packBits (bits ++ List.replicate (padLen bits.length) true) := by
+  have hinv := h
+  obtain ⟨done, pend, hb, hd, hout, hn, hn32, hx⟩ := h
+  have hpl : padLen bits.length = padLen a.n := by
+    rw [hb, List.length_append, ← hn]; unfold padLen; omega
+  rw [hpl]
+  have hpad255 : Gen.Huffman.eosPadByte = 255 := eos_consts.2.2
+  by_cases hov : a.n % 8 > 0
+  · have hp : padLen a.n = 8 - a.n % 8 := by unfold padLen; omega
+    have hxv : ((a.x <<< (8 - a.n % 8)) % 2 ^ 64) ||| (Gen.Huffman.eosPadByte >>> (a.n % 8)) =
+        bitsToNat (bits ++ List.replicate (padLen a.n) true) % 2 ^ 64 := by
+      rw [hpad255, pad_byte _ (Nat.mod_lt _ (by omega)) hov, hx,
+        step_x _ _ _ (by omega) (by have := Nat.two_pow_pos (8 - a.n % 8); omega),
+        bitsToNat_append, bitsToNat_ones, List.length_replicate, hp]
+    have htail := acc_tail a bits hinv _ hxv
+    rw [← htail, hp]
+    have hk : (a.n + (8 - a.n % 8)) / 8 = 1 ∨ (a.n + (8 - a.n % 8)) / 8 = 2 ∨
+        (a.n + (8 - a.n % 8)) / 8 = 3 ∨ (a.n + (8 - a.n % 8)) / 8 = 4 := by omega
+    simp only [accFinish, hov, ↓reduceIte]
+    rcases hk with hk | hk | hk | hk <;> rw [hk]
+    · simp only; rw [fin1]
+    · simp only; rw [fin2]
+    · simp only; rw [fin3]
+    · simp only; rw [fin4]
+  · have hp : padLen a.n = 0 := by unfold padLen; omega
+    have hxv : a.x = bitsToNat (bits ++ List.replicate (padLen a.n) true) % 2 ^ 64 := by
+      rw [hp, List.replicate_zero, List.append_nil, hx]
+    have htail := acc_tail a bits hinv _ hxv
+    rw [← htail, hp, Nat.add_zero]
+    have hk : a.n / 8 = 0 ∨ a.n / 8 = 1 ∨ a.n / 8 = 2 ∨ a.n / 8 = 3 := by omega
+    simp only [accFinish, hov, ↓reduceIte]
+    rcases hk with hk | hk | hk | hk <;> rw [hk]
+    · simp [beBytes]
+    · simp only; rw [fin1]
+    · simp only; rw [fin2]
+    · simp only; rw [fin3]
+
+/-- **C04 (accumulator).** The 64-bit accumulator of `AppendHuffmanString` (flush of 4 bytes at
+`n ≥ 32`, EOS padding, 0–4 trailing bytes) computes exactly the bit-level encoding. -/
+theorem appendHuffman_eq_encode : AppendHuffmanEqEncodeStatement := by
+  intro s hs
+  unfold appendHuffman encode
+  have := accInv_foldl s hs _ _ accInv_init
+  rw [List.nil_append] at this
+  exact accFinish_eq _ _ this
+
+/-- `HuffmanDecode(AppendHuffmanString(s)) = s` on the byte-level model of the encoder. -/
+theorem decode_appendHuffman (s : List Nat) (hs : Bytes s) : decode (appendHuffman s) = .ok s := by
+  rw [appendHuffman_eq_encode s hs]; exact decode_encode s hs
 
 end NetVerif.Proofs.C04
